@@ -12,9 +12,9 @@ LEVEL_TEXT = ("Generated runs ending in every way (result, step failure, non-eve
 LEVEL_NOTE = "Trusted: virtual clock quiescence detection, instrumentation shim; the consumer is the real handler.stream_events(expose_internal=True)."
 DESIGN_REF = "§5 C04"
 RULE = "case = generated program (outcomes / fan / wait families) + schedule; distinct = tick-order signature hash; non-trivial = the run finished"
-REQUIRED_REACH = ["finished_run", "outcome_result", "outcome_failed", "outcome_cancelled", "outcome_timeout", "family_outcomes"]
+REQUIRED_REACH = ["finished_run", "outcome_result", "outcome_failed", "outcome_cancelled", "outcome_timeout", "family_outcomes", "family_syncfan"]
 ASSUMPTIONS = ["hostile retry code is limited to: next() raising, returning a str / NaN / negative number, predicate raising"]
-FAMILIES = [("outcomes", 4), ("fan", 1), ("wait", 1)]
+FAMILIES = [("outcomes", 4), ("fan", 1), ("wait", 1), ("syncfan", 1)]
 
 
 def plan(tier, seed):
